@@ -193,15 +193,26 @@ func c06case(vals []string, style int) []string {
 }
 
 var c06style int
+var c06api int // 0: NewRoute().Packet(..)...HandlerFunc; 1: HandleFunc(name, f)...; 2: Handle(name, h)...
 
 func c06build(table []c06route, log *[]int) *Router {
 	r := NewRouter()
 	for i, rt := range table {
 		i := i
-		route := r.NewRoute()
-		// the public builder API, with the capitalisation a user might write
-		if rt.name != "" {
-			route.Packet(strings.ToUpper(rt.name[:1]) + rt.name[1:])
+		h := func(s Sender, p stanza.Packet) { *log = append(*log, i) }
+		var route *Route
+		// the public builder API, with the capitalisation a user might write; c06api: the short forms Handle and
+		// HandleFunc (name and handler first, the other matchers added to what they return) for routes with a name
+		switch {
+		case rt.name != "" && c06api == 1:
+			route = r.HandleFunc(strings.ToUpper(rt.name[:1])+rt.name[1:], h)
+		case rt.name != "" && c06api == 2:
+			route = r.Handle(rt.name, HandlerFunc(h))
+		default:
+			route = r.NewRoute()
+			if rt.name != "" {
+				route.Packet(strings.ToUpper(rt.name[:1]) + rt.name[1:])
+			}
 		}
 		if rt.types != nil {
 			route.StanzaType(c06case(rt.types, c06style)...)
@@ -209,7 +220,9 @@ func c06build(table []c06route, log *[]int) *Router {
 		if rt.nss != nil {
 			route.IQNamespaces(c06case(rt.nss, c06style)...)
 		}
-		route.HandlerFunc(func(s Sender, p stanza.Packet) { *log = append(*log, i) })
+		if rt.name == "" || c06api == 0 {
+			route.HandlerFunc(h)
+		}
 	}
 	return r
 }
@@ -229,8 +242,8 @@ func c06run(c *hx.Ctx, table []c06route, packets []c06packet) {
 				break
 			}
 		}
-		c.Eval(fmt.Sprintf("%v|%s|%v|%d", table, p.desc, log, len(snd.sent)))
-		in := fmt.Sprintf("table=%v packet=%s", table, p.desc)
+		c.Eval(fmt.Sprintf("%v|%d|%s|%v|%d", table, c06api, p.desc, log, len(snd.sent)))
+		in := fmt.Sprintf("table=%v api=%d packet=%s", table, c06api, p.desc)
 		kind := p.name
 		if kind == "" {
 			kind = "nonstanza"
@@ -288,6 +301,12 @@ func TestVerifC06(t *testing.T) {
 			}
 		}
 		c06style = 0
+		for c06api = 1; c06api <= 2; c06api++ {
+			for _, r := range routes {
+				c06run(c, []c06route{r}, packets)
+			}
+		}
+		c06api = 0
 		c.Sample(map[string]any{"table": []string{routes[5].String()}, "packets": len(packets)})
 	}})
 	for i := range routes {
@@ -298,6 +317,13 @@ func TestVerifC06(t *testing.T) {
 				c06run(c, []c06route{routes[i], r2}, packets)
 				c06style = 1
 				c06run(c, []c06route{routes[i], r2}, packets[:40])
+				c06style = 0
+				if routes[i].name != "" || r2.name != "" {
+					for c06api = 1; c06api <= 2; c06api++ {
+						c06run(c, []c06route{routes[i], r2}, packets[:40])
+					}
+					c06api = 0
+				}
 			}
 			c06style = 0
 			c.Sample(map[string]any{"table": []string{routes[i].String(), routes[len(routes)-1].String()}})
